@@ -263,13 +263,31 @@ package scheduler
 //@ func (*invocation).decrementExecutingWorkersCount
 //@   props C04
 //@   ghostset execdec[i] = old(execdec(i)) + 1
+//@   at call heapMaybeFix#1 assert every-invocation-on-the-way-up-is-stamped-before-it-is-re-sorted-in-its-parent:
+//@             i.lastOperationCompletion == bq.now && arg0 == &i.parent.queuedChildren && arg1 == i.queuedChildrenIndex
+//@   at call heapMaybeFix#2 assert re-sorted-among-the-invocations-with-waiting-workers-as-well:
+//@             arg0 == &i.parent.idleSynchronizingWorkersChildren && arg1 == i.idleSynchronizingWorkersChildrenIndex
+
+// Starting an operation counts for, stamps and re-sorts every invocation from
+// the operation's own up to the root: ties between sibling invocations are
+// decided by the time each of them was last served.
+//@ func (*invocation).incrementExecutingWorkersCount
+//@   props C04
+//@   at call heapMaybeFix#1 assert every-invocation-on-the-way-up-is-stamped-before-it-is-re-sorted-in-its-parent:
+//@             i.lastOperationStarted == bq.now && arg0 == &i.parent.queuedChildren && arg1 == i.queuedChildrenIndex
+//@   at call heapMaybeFix#2 assert re-sorted-among-the-invocations-with-waiting-workers-as-well:
+//@             arg0 == &i.parent.idleSynchronizingWorkersChildren && arg1 == i.idleSynchronizingWorkersChildrenIndex
 
 // A worker that leaves getNextTask is no longer listed as idle and waiting,
 // whichever way the wait ended (task, timeout, cancellation): otherwise tasks
 // are handed to a worker that is gone.
 //@ func (*worker).dequeue
-//@   props C06
+//@   props C06 C04
 //@   ensures no-longer-waiting: w.wakeup == nil
+//@   at call heapRemoveOrFix#1 assert an-invocation-stays-listed-while-it-or-a-descendant-has-a-waiting-worker:
+//@             arg0 == &i.parent.idleSynchronizingWorkersChildren && arg1 == i.idleSynchronizingWorkersChildrenIndex &&
+//@             arg2 == len(i.idleSynchronizingWorkers) + len(i.idleSynchronizingWorkersChildren)
+//@   ensures every-ancestor-up-to-the-root-was-updated: i.parent == nil
 //@ func (*worker).maybeDequeue
 //@   props C06
 //@   ensures no-longer-waiting: w.wakeup == nil
